@@ -870,7 +870,22 @@ Definition strconv_sample_ok (k : kind) (x : N) (gtext : bytes) (parsed : option
   end &&
   forallb is_run_char gtext &&
   negb (bytes_eqb body []) &&
+  negb (existsb (bytes_eqb (map lower gtext)) [t_nan; t_snan; t_inf; t_ninf]) &&
   option_eqb N.eqb parsed (Some (match k with KF16 => (x mod 2 ^ 15) * 65536 | _ => x mod 2 ^ (kind_bits k - 1) end)).
+
+(* an element that is written as a number (not nan / snan / inf / -inf) *)
+Definition float_finite (k : kind) (x : N) : bool :=
+  match kind_class k with
+  | CFloat => match write_special (widen k x) with None => true | Some _ => false end
+  | _ => false
+  end.
+
+(* "on the finite elements of this array the two strconv functions behave as
+   they do on every sample": the hypothesis of the decimal-float theorem *)
+Definition strconv_ok_on (fmt_g : N -> bytes) (parse_dec : N -> bytes -> option N) (k : kind) (xs : list N) : Prop :=
+  Forall (fun x => float_finite k x = true ->
+                   strconv_sample_ok k x (fmt_g (widen k x))
+                     (parse_dec (float_parse_bits k) (dec_text (fmt_g (widen k x)))) = true) xs.
 
 Definition ctearrfmt_case_ok (c : ctearrfmt_case) : bool :=
   match c with
